@@ -33,6 +33,7 @@ N_BASE = {"quick": 90, "thorough": 5000}
 def plan(tier: str, seed: int) -> list[dict]:
     shards = [{"kind": "gen", "n": N_BASE[tier]} for _ in range(15)]
     shards.append({"kind": "zero_crc", "n": 6 if tier == "quick" else 120})
+    shards.append({"kind": "suite"})
     return shards
 
 
@@ -175,6 +176,11 @@ def find_zero_crc(rng, ctx):
 
 
 def run(shard: dict, ctx) -> None:
+    if shard.get("kind") == "suite":
+        from vf.mon import suite
+
+        suite.run_suite(ctx, "C04")
+        return
     rng = ctx.rng("c04", shard["kind"])
     if shard["kind"] == "zero_crc":
         for _ in range(shard["n"]):
